@@ -155,6 +155,45 @@ theorem C03_load_needs_LinesPos :
   revert h1
   decide
 
+/-- A single-level group start reserves at least the spanning rows rendered for it, whatever the value is: an
+ordinary text, the EMPTY string or blanks (a blank spanning row is rendered — and reserved: only the divider empties
+the heading text `calculate_row_metadata` measures), a null (reserved, not rendered), the divider (neither). -/
+theorem C03_start_reserved (v : Option String) (m : Nat) (hm : 1 ≤ m) :
+    (topHeadings [v]).length ≤ headingRows [v] m := by
+  unfold topHeadings groupValues headingRows
+  cases hd : isDivider v with
+  | true => simp [hd, List.zipIdx]
+  | false =>
+    cases v with
+    | none => simp [hd, List.zipIdx]
+    | some s => simp [hd, List.zipIdx]; exact hm
+
+/-- the empty string and blanks are values like any other: rendered as a (blank) spanning row, and reserved -/
+theorem C03_blank_value_rendered_and_reserved (m : Nat) :
+    topHeadings [some ""] = [Block.heading 0 ""] ∧ headingRows [some ""] m = m ∧
+    topHeadings [some " "] = [Block.heading 0 " "] ∧ headingRows [some " "] m = m ∧
+    topHeadings [none] = [] ∧ headingRows [none] m = m ∧
+    topHeadings [some "-----"] = [] ∧ headingRows [some "-----"] m = 0 := by
+  refine ⟨by decide, ?_, by decide, ?_, by decide, ?_, by decide, ?_⟩ <;>
+    simp [headingRows, isDivider, strOf]
+
+/-- groups that do not straddle a page, the first one labelled with the empty string (`nrow = 10`, one header with
+text, groups ''×3, A×5, B×3): the blank spanning row is part of the budget of page 1, which holds exactly 10 rows. -/
+def blankGroups : LDoc :=
+  { nrow := 10,
+    rows := (List.replicate 3 ⟨1, [some ""], [], 1, 1⟩) ++ (List.replicate 5 ⟨1, [some "A"], [], 1, 1⟩) ++
+            (List.replicate 3 ⟨1, [some "B"], [], 1, 1⟩),
+    hasPageBy := true, hasSubline := false, newPage := false, pagebyColumn := true, pagebyHeader := true,
+    headers := [true], asColheader := true, hasTitle := false, hasSublineTxt := false,
+    footnote := .absent, source := .absent, pageTitle := .all, pageFootnote := .last, pageSource := .last }
+
+theorem C03_blank_group_counted :
+    blankGroups.pages.map (fun pg =>
+      (pg.number, tableRows blankGroups (renderPage blankGroups pg),
+        headingCount (renderPage blankGroups pg), (dataIdx (renderPage blankGroups pg)).length)) =
+      [(1, 10, 2, 7), (2, 7, 2, 4)] := by
+  decide
+
 /-- the D4 witness alone also refutes the full statement (page 2) -/
 theorem C03_witness_continuation : ¬ C03_full := by
   intro h
